@@ -75,6 +75,10 @@ def observe_claims(cms, hist, root, view, texts=None):
     return out
 
 
+class SecondDumpDiffers(Exception):
+    pass
+
+
 def make_record(tid, text, src_texts, claims_fn, loads_c, loads_p, dumps, itn=None):
     itn = tracecheck.Interner()
     cn = comments.canon(src_texts)
@@ -82,7 +86,10 @@ def make_record(tid, text, src_texts, claims_fn, loads_c, loads_p, dumps, itn=No
            "with": {"t": "none"}, "without": {"t": "none"}, "accepted": False}
     dc = loads_c(text)
     dp = loads_p(text)
-    out_c = dumps(dc)
+    first = dumps(dc)
+    out_c = dumps(dc)          # writing is repeatable: the second dump of the same dictionary is the one judged
+    if first != out_c:
+        raise SecondDumpDiffers(first, out_c)
     out_p = dumps(dp)
     view, _, _ = comments.output_view(out_c, src_texts)
     rec["out"] = [i for ln in view for i in ln["ids"]]
@@ -119,6 +126,10 @@ def run(tier):
         try:
             rec, out_c = make_record("gen:%d" % j, text, texts, lambda view: observe_claims(cms, hist, root, view, texts),
                                      loads_c, loads_p, dumps)
+        except SecondDumpDiffers as ex:
+            ck.violation("C14|second-dump-differs", "dumping the same dictionary (loaded with comments) twice gives two texts",
+                         {"text": text, "first": ex.args[0], "second": ex.args[1]})
+            continue
         except Exception as ex:  # noqa: BLE001
             ck.violation("C14|raised|%s" % type(ex).__name__, "load/dump with comments raised %s: %s" % (type(ex).__name__, str(ex)[:120]),
                          {"text": text, "comments": cms})
@@ -126,6 +137,28 @@ def run(tier):
         records.append(rec)
         meta[rec["tid"]] = (text, out_c, cms)
         ck.nontrivial([hist[:-1], cms])
+    # a key-value block as the root object (the root opener is item 0 of the spec: comments above it are claimed)
+    k = 0
+    for t in ("metadata", "validation", "connectionoptions"):
+        for above in (["# above %s"], ["/* above %s */"], ["# first %s", "/* second %s */", "# third %s"]):
+            k += 1
+            texts = {i + 1: a % t for i, a in enumerate(above)}
+            text = "\n".join(texts[i] for i in sorted(texts)) + '\n%s\n  "key_a" "v a"\n  "key_b" "v b"\nEND\n' % t.upper()
+            cms = [{"id": i, "item": 0, "where": "above", "claimed": True} for i in sorted(texts)]
+            hist0 = [{"a": "finish"}]
+            ck.count()
+            try:
+                rec, out_c = make_record("rootkv:%d" % k, text, texts, lambda view, cms=cms, t=t, texts=texts: observe_claims(cms, hist0, t, view, texts),
+                                         loads_c, loads_p, impl.dumper())
+            except SecondDumpDiffers as ex:
+                ck.violation("C14|second-dump-differs", "dumping the same dictionary (loaded with comments) twice gives two texts",
+                             {"text": text, "first": ex.args[0], "second": ex.args[1]})
+                continue
+            except Exception as ex:  # noqa: BLE001
+                ck.violation("C14|raised|%s" % type(ex).__name__, "load/dump with comments raised %s: %s" % (type(ex).__name__, str(ex)[:120]), {"text": text})
+                continue
+            records.append(rec)
+            meta[rec["tid"]] = (text, out_c, cms)
     # fixed probe: a # comment and a multi-line C comment that end up joined on one keyword line
     probe = 'STYLE\n  # first\n  /* second\n     still second */\n  LINECAP ROUND\nEND\n'
     try:
@@ -185,7 +218,7 @@ def run(tier):
         if v["verdict"] != "ok":
             text, out_c, cms = meta[tid]
             kind = tid.split(":")[0]
-            ck.violation("C14|%s|%s" % (v["verdict"], kind if kind == "gen" else tid),
+            ck.violation("C14|%s|%s" % (v["verdict"], kind if kind in ("gen", "rootkv") else tid),
                          "comment clause violated: %s (%s)" % (v["verdict"], tid), {"text": text, "printed": out_c, "comments": cms})
     ck.sample({"placements": bs[0]["comments"], "text": meta["gen:0"][0][:500] if "gen:0" in meta else ""})
     return ck.finish(coverage_extra={"generated_placements": len(bs), "corpus_files_with_comments": ncorpus,
